@@ -177,6 +177,11 @@ def shared_lock_state(M, mk_root, mp, setenv):
     bad = []
     for n in LOCK_LISTS:
         name = n + ("_mp" if mp else "_th")
+        # the lists exist once the store is initialised: processes forked from the initialising one can only share
+        # what was created before the fork
+        if name not in vars(a):
+            bad.append((name, "is not created when the store is initialised (every forked process would make its own)"))
+            continue
         la, lb = getattr(a, name, None), getattr(b, name, None)
         if la is None or lb is None:
             bad.append((name, "missing"))
@@ -199,6 +204,29 @@ def shared_lock_state(M, mk_root, mp, setenv):
             la.remove("probe-identifier")
             if same:
                 bad.append((name, "and %s of one instance are the same list" % (n2 + ("_mp" if mp else "_th"))))
+    return bad
+
+
+def forked_child_shares_lists(MN, root, setenv):
+    """native, real processes: an identifier locked by a process forked right after initialisation is seen locked by
+    the initialising process (the lists are shared manager lists created before the fork)"""
+    import os
+    setenv(True)
+    a = MN.FileHashStore(dict(store_path=root, store_depth=3, store_width=2, store_algorithm="SHA-256",
+                              store_metadata_namespace="ns"))
+    setenv(False)
+    pid = os.fork()
+    if pid == 0:
+        try:
+            for n in LOCK_LISTS:
+                getattr(a, n + "_mp").append("locked-by-the-child")
+        finally:
+            os._exit(0)
+    os.waitpid(pid, 0)
+    bad = []
+    for n in LOCK_LISTS:
+        if "locked-by-the-child" not in list(getattr(a, n + "_mp")):
+            bad.append((n + "_mp", "an identifier locked in a forked process is not seen locked by its parent"))
     return bad
 
 
@@ -240,6 +268,8 @@ def replay_independence(payload):
             os.environ.pop("USE_MULTIPROCESSING", None)
     try:
         bad = shared_lock_state(MN, lambda x: root + "/st_" + x, bool(payload.get("mp")), setenv)
+        if payload.get("mp"):
+            bad += forked_child_shares_lists(MN, root + "/st_fork", setenv)
         return bool(bad), ("native run (unpatched code, real %s primitives): two FileHashStore instances on different "
                            "directories: %s" % ("multiprocessing" if payload.get("mp") else "threading", bad))
     finally:
